@@ -67,6 +67,13 @@ def record(lentil, tier, seed):
                 qv = [dy() for _ in range(nw)]
                 out = d.collect_charge(ph, [float(w) for w in waves_u], [float(x) for x in qv], waveunit=unit)
                 add(dict(base, qe=[sp.rj(x) for x in qv], out=rmat(out)))
+                # a pass-band written as a narrow-typed vector (a boolean or small-integer mask) applied to a narrow-typed cube of
+                # large counts: the charge is a sum of counts, whatever the width of the types the operands arrive in
+                qb = [Fr(rng.randint(0, 1)) for _ in range(nw)]
+                phn = nr.integers(20000, 30000, size=(nw, m, n)) if rng.random() < 0.5 else nr.integers(1024, 2048, size=(nw, m, n))
+                cdt, qdt = ((np.uint16, rng.choice((bool, np.uint8, np.uint16))) if phn.max() > 2048 else (np.float16, np.float16))
+                outn = d.collect_charge(phn.astype(cdt), [float(w) for w in waves_u], np.array([int(x) for x in qb]).astype(qdt), waveunit=unit)
+                add(dict(base, ph=phn.tolist(), qe=[sp.rj(x) for x in qb], out=rmat(outn)))
             else:
                 # spectrum on its own grid and in its own unit; slice wavelengths at samples, between them, or outside
                 sunit = rng.choice(('nm', 'um', 'angstrom'))
@@ -133,8 +140,18 @@ def record(lentil, tier, seed):
             gj, greal = [[[sp.rj(x) for x in r] for r in p] for p in gain], np.array([[[float(x) for x in r] for r in p] for p in gain])
         sat = rng.choice((None, None, top // 2, top // 4, 1, 0, Fr(top, 2) + Fr(1, 2), Fr(top // 4 * 4 + 3, 4)))     # zero and fractional capacities are capacities
         warnflag = rng.random() < 0.5
+        narrow = rng.random() < 0.12
+        if narrow:
+            # a half-precision frame of exactly representable counts and a capacity BETWEEN two representable values: the pixel just above
+            # the capacity exceeds it (warning, clipping) although the capacity rounds onto that pixel's value in the frame's own type
+            form, order, allow_neg = 'scalar', 1, False
+            e = nr.integers(1024, 2048, size=(m, n))
+            gain = Fr(rng.randint(1, 24), 8)
+            gj, greal = sp.rj(gain), float(gain)
+            sat = Fr(4 * int(e[rng.randrange(m), rng.randrange(n)]) - 1, 4)
+            warnflag = True
         # electron counts arrive as floats or as integer counts of any width (a count is a count)
-        ein = e.astype(rng.choice((float, float, np.int64, np.int32, np.int16, np.float32)))
+        ein = e.astype(np.float16 if narrow else rng.choice((float, float, np.int64, np.int32, np.int16, np.float32)))
         # the requested output type must be able to hold the result (otherwise the cast itself is undefined behaviour)
         try:
             with warnings.catch_warnings():
